@@ -166,6 +166,9 @@ impl Property for C08 {
     fn marks(&self) -> bool {
         true
     }
+    fn fuzz(&self) -> Option<crate::FuzzSpec> {
+        Some(crate::FuzzSpec { label: "c08-ws", max_len: 700, runs: 3000 })
+    }
     fn run(&self, ctx: &mut Ctx) {
         let cases = ctx.tier.pick(250, 6_000);
         ctx.run_streams("c08-ws", cases, 700, |ctx, bytes| {
